@@ -28,7 +28,7 @@ SigModC == {"flip", "trunc", "extend-fix", "extend-nofix", "len+1", "len-1", "le
 ProofBitC == {"first", "last", "flags", "mid1", "mid2"}
 KindC == {"raw", "stateful", "roots"}
 TreeC == {"same", "other-changed", "member-deleted", "changed-restored"}
-RootsC == {"empty", "cur", "other", "other+cur", "stale"}
+RootsC == {"empty", "cur", "other", "other+cur", "stale", "zero", "zeros", "zero+cur"}
 TamperCases ==
   [what : {"none"}, kind : KindC, tree : TreeC, roots : RootsC]
   \cup [what : {"field"}, f : FieldC, how : HowC, kind : KindC]
